@@ -209,3 +209,11 @@ package server
 //@     needs before s.authorizeRequestWithRequestTags(_, $op, _, _, $rt, _, _) -> ($stop)
 //@     where !$stop && same($rt, $t) && ($o != nil && $o.VersionID != nil ==> $op == authorization.OperationPutObjectVersionTagging) &&
 //@         ($o == nil || $o.VersionID == nil ==> $op == authorization.OperationPutObjectTagging)
+
+// C01 / C04. UploadPart: the part goes to the upload, part number (1..10000), bucket and key of this request, with the
+// checksum input extracted from it.
+//@ func (*Server).uploadPartHandler
+//@ property C01 C04
+//@ mode effects
+//@ effect[C04:part-uploaded-as-requested] every s.storage.UploadPart(_, $b, $k, $u, $n, _, $ci)
+//@     where $b == bucketName && $k == key && $u == uploadId && $n == partNumberI32 && $n >= 1 && $n <= 10000 && $ci == checksumInput
